@@ -174,7 +174,7 @@ def gen_cases(ctx, thorough):
     rng = ctx.rng
     out = []
     kinds = ["pos", "cplx", "dm"]
-    reps = 5 if thorough else 2
+    reps = 24 if thorough else 2
     for kind in kinds:
         for _ in range(reps):
             n = rng.choice([2, 3]) if kind != "dm" else 2
